@@ -198,6 +198,25 @@ class PCAFlow(FlowInterface.FlowInterface):
         -------
         None
         """
+        number_bins = len(bins) - 1
+        if event_number == 0:
+            self.bin_multiplicity_total_ = np.zeros(number_bins)
+            for i in range(self.number_subcalc_):
+                self.sigma_multiplicity_total_.append(np.zeros(number_bins))
+            self.number_events_subcalc_ = np.zeros(self.number_subcalc_)
+            self.QnRe_total_ = np.zeros(number_bins)
+            self.QnIm_total_ = np.zeros(number_bins)
+            self.SigmaQnReSub_total_ = np.zeros(
+                (number_bins, self.number_subcalc_)
+            )
+            self.SigmaQnImSub_total_ = np.zeros(
+                (number_bins, self.number_subcalc_)
+            )
+            self.VnDelta_total_ = np.zeros((number_bins, number_bins))
+            self.SigmaVnDelta_total_ = np.zeros(
+                (number_bins, number_bins, self.number_subcalc_)
+            )
+
         if self.normalization_ is None:
             raise TypeError(
                 "'normalization_' is None. It must be initialized before calling the '__update_event' function."
@@ -239,7 +258,6 @@ class PCAFlow(FlowInterface.FlowInterface):
                 "'SigmaVnDelta' is None. It must be initialized before calling the '__update_event' function."
             )
 
-        number_bins = len(bins) - 1
         bin_multiplicity_event = np.zeros(number_bins)
         QnRe = np.zeros(number_bins)
         QnIm = np.zeros(number_bins)
@@ -249,24 +267,6 @@ class PCAFlow(FlowInterface.FlowInterface):
         SigmaVnDelta_event = np.zeros(
             (number_bins, number_bins, self.number_subcalc_)
         )
-        if event_number == 0:
-            self.bin_multiplicity_total_ = np.zeros(number_bins)
-            for i in range(self.number_subcalc_):
-                self.sigma_multiplicity_total_.append(np.zeros(number_bins))
-            self.number_events_subcalc_ = np.zeros(self.number_subcalc_)
-            self.QnRe_total_ = np.zeros(number_bins)
-            self.QnIm_total_ = np.zeros(number_bins)
-            self.SigmaQnReSub_total_ = np.zeros(
-                (number_bins, self.number_subcalc_)
-            )
-            self.SigmaQnImSub_total_ = np.zeros(
-                (number_bins, self.number_subcalc_)
-            )
-            self.VnDelta_total_ = np.zeros((number_bins, number_bins))
-            self.SigmaVnDelta_total_ = np.zeros(
-                (number_bins, number_bins, self.number_subcalc_)
-            )
-
         # update the sub-calculation counter if needed
         if self.number_events_ is not None:
             number_events_subcalc = self.number_events_ // self.number_subcalc_
